@@ -169,6 +169,18 @@ func scModName(i int) string {
 	return fmt.Sprintf("f%d", i+1)
 }
 
+// scMaybeProject names the only file of a single-file program as project entry (luahelper.json ProjectFiles) for a seeded
+// quarter of such programs: the project pass then analyses the file as well. Programs of several files are left as they
+// are (which globals a project file sees across the project boundary is not settled by the statements).
+func scMaybeProject(pc *proto.Case, r *scRender) {
+	if len(r.Files) != 1 || strings.TrimSpace(r.Text[0]) == "" {
+		return
+	}
+	if hash64(r.Text[0], scSeed)%4 == 0 {
+		pc.Files["luahelper.json"] = fmt.Sprintf(`{"ShowWarnFlag":1,"ProjectFiles":[%q]}`, r.Files[0])
+	}
+}
+
 func scFileName(i int) string { return scModName(i) + ".lua" }
 
 // scRenderProg renders items one statement per line, ASCII only, no indentation.
